@@ -185,17 +185,22 @@ def render_body(f, ind, is_method_with_super=False):
             L.append(f"{j}    {kw} _op[1] == \"{n}\": {n} = _op[2]")
     # 11: start a handle
     L.append(f"{j}elif _k == 11:")
-    L.append(f"{j}    _H[_op[1]] = [_op[2](*_op[3], **_op[4]), _op[5], False, _op[6], None]")
+    L.append(f"{j}    _H[_op[1]] = [_op[2](*_op[3], **_op[4]), _op[5], False, _op[6], None, (_op[2], _op[3], _op[4])]")
     # 12: step a handle
     L.append(f"{j}elif _k == 12:")
     L.append(f"{j}    _h = _H.get(_op[1])")
     L.append(f"{j}    if _h is None or _op[1] in _RUN: continue")
     L.append(f"{j}    _mode = _op[2]")
     L.append(f"{j}    if not _h[2]:")
-    L.append(f"{j}        if _mode >= 2:")
+    L.append(f"{j}        if _mode == 2 and _h[3] != \"a\":")
+    # an exception thrown into a generator / coroutine that has not started: its body never runs (no E record of its own), the
+    # activation begins and ends inside throw(); the site journals which callable with which arguments it was
+    L.append(f"{j}            _R((\"EU\", _op[1], _h[5])); _h[1] = None; _h[2] = True")
+    L.append(f"{j}        elif _mode >= 2:")
     L.append(f"{j}            if _mode == 4: del _H[_op[1]]")
     L.append(f"{j}            continue")
-    L.append(f"{j}        _P(_h[1]); _h[1] = None; _h[2] = True; _mode = 0")
+    L.append(f"{j}        else:")
+    L.append(f"{j}            _P(_h[1]); _h[1] = None; _h[2] = True; _mode = 0")
     L.append(f"{j}    _RUN.add(_op[1]); _m = _M()")
     L.append(f"{j}    try:")
     # async generator handle: one step = one send() on the awaitable of the current asend / athrow / aclose; that awaitable is
